@@ -4,6 +4,7 @@ import (
 	"encoding/json"
 	"fmt"
 	"math/rand/v2"
+	"strings"
 
 	pipeline "github.com/buildkite/go-pipeline"
 	"github.com/buildkite/go-pipeline/signature"
@@ -21,13 +22,18 @@ func init() { register("C02", checkC02) }
 // c02Run signs the pipeline parsed from text and checks that every command
 // step still verifies after each serialisation and re-parse. It returns ""
 // if the property holds; refused reports that SignSteps refused (unknown step).
-func c02Run(c *run.Ctx, text string, interp bool, kp *keys.Pair, reps int) (what string, extra map[string]any, refused bool) {
+func c02Run(c *run.Ctx, text string, interp bool, kp *keys.Pair, reps int, envOverride map[string]string) (what string, extra map[string]any, refused bool) {
 	p, perr := parseText(text)
 	if perr != nil && !warning.Is(perr) {
 		return "well-formed document rejected: " + perr.Error(), nil, false
 	}
 	if interp {
-		env := refmodel.NewEnv(false, c04Env())
+		em := c04Env()
+		em["FIELDNAME"] = "command" // a variable whose value happens to be the name of a typed step field
+		if envOverride != nil {
+			em = envOverride
+		}
+		env := refmodel.NewEnv(false, em)
 		if err := p.Interpolate(env, false); err != nil {
 			return "", nil, true // an expansion failed; nothing to sign
 		}
@@ -153,6 +159,11 @@ func c02Run(c *run.Ctx, text string, interp bool, kp *keys.Pair, reps int) (what
 		}
 		yb, err := safeYAMLMarshal(p)
 		if err != nil {
+			if strings.Contains(err.Error(), "conflicts with struct field") && strings.Contains(text, "${FIELDNAME}") && c.Listed("K8") {
+				// known finding K8: an unknown field renamed by interpolation onto a typed field's name makes yaml.v3 panic
+				c.KnownHit("K8")
+				continue
+			}
 			return "yaml.Marshal: " + err.Error(), nil, false
 		}
 		p3, err := parseText(string(yb))
@@ -171,12 +182,23 @@ func checkC02(c *run.Ctx) {
 	must(c, err)
 	for _, f := range c.FindingsFor() {
 		var w struct {
-			Document string `json:"document"`
+			Document string            `json:"document"`
+			Env      map[string]string `json:"env"`
 		}
 		if len(f.Witness) == 0 || json.Unmarshal(f.Witness, &w) != nil || w.Document == "" {
 			continue
 		}
-		what, _, _ := c02Run(c, w.Document, false, all["EdDSA"][0], 1)
+		what, _, _ := c02Run(c, w.Document, len(w.Env) > 0, all["EdDSA"][0], 1, w.Env)
+		if f.ID == "K8" {
+			// the witness goes through the generic path, where K8 is recognised and skipped: replay it without that
+			p, _ := parseText(w.Document)
+			what = ""
+			if p != nil && p.Interpolate(refmodel.NewEnv(false, w.Env), false) == nil {
+				if _, err := safeYAMLMarshal(p); err != nil {
+					what = "yaml.Marshal of the interpolated pipeline: " + err.Error()
+				}
+			}
+		}
 		c.Witness(f, what != "", fmt.Sprintf("%q: %s", w.Document, what))
 	}
 	n := c.N(1500, 100000)
@@ -212,13 +234,33 @@ func checkC02(c *run.Ctx) {
 		if err != nil {
 			return
 		}
+		if interp && !d.HasSharing && mix(i, 10, 4) == 0 {
+			// a coincidence no generator finds by itself: an unknown field of a command step whose name is a reference
+			// to a variable whose value is the name of a typed field of that step
+			for _, tree := range []*doc.Node{d.Plain, d.Root} {
+				top := tree
+				if sv, has := tree.Get("steps"); tree.Kind == doc.KMap && has {
+					top = sv
+				}
+				if top.Kind != doc.KSeq {
+					continue
+				}
+				for _, st := range top.Seq {
+					if st.Kind == doc.KMap && (st.Has("command") || st.Has("commands")) && !st.Has("type") && !st.Has("${FIELDNAME}") {
+						st.Map = append(st.Map, doc.P("${FIELDNAME}", doc.S("smuggled under the name of a typed field")))
+						break
+					}
+				}
+			}
+			c.Count("documents_with_an_unknown_field_named_like_a_typed_field_after_interpolation", 1)
+		}
 		rs := renderings(d, r, 1, func(style, why string) { c.Count("renderings_discarded_generator_invalid", 1) })
 		rd := rs[len(rs)-1]
 		if mix(i, 8, 2) == 0 {
 			rd = rs[0]
 		}
 		id := run.CaseID("doc", i)
-		what, extra, refused := c02Run(c, rd.Text, interp, kp, 3)
+		what, extra, refused := c02Run(c, rd.Text, interp, kp, 3, nil)
 		c.Eval(1)
 		if what != "" {
 			m := map[string]any{"what": what, "style": rd.Style, "document": clip(rd.Text, 8000), "key_kind": kind, "interpolated": interp}
